@@ -5,3 +5,4 @@ CONSTANTS
   VecMax = 3
   DecLen = 2
   IterLen = 2
+  IterCls = {"al", "amp", "eq", "pct", "plus", "sp", "u3", "slash", "nul", "u4"}
